@@ -1280,7 +1280,10 @@ func getReadBufferPool(size int) mempool.Allocator {
 }
 
 //go:norace
-func SyncExecutor(f func()) bool {
+func SyncExecutor(f func()) (done bool) {
+	// The function has been run, also when it panics: a caller that is told
+	// false cleans up what the function was to release, a second time.
+	done = true
 	defer func() {
 		if err := recover(); err != nil {
 			const size = 64 << 10
